@@ -177,7 +177,7 @@ def gen_world(rng):
                 "Henry": {"K": 0.75}, "Toth": {"K": 1.5, "n_m": 5.0, "t": 0.8}}[name]
         roles["model"] = len(isos)
         isos.append({"kind": "model", "material": src["material"], "adsorbate": src["adsorbate"], "temperature": src["temperature"],
-                     "units": dict(src["units"], pressure_unit="bar"), "meta": {"branch": "ads"},
+                     "units": dict(src["units"], pressure_unit=rng.choice(["bar", "bar", "Pa"])), "meta": {"branch": "ads"},
                      "model": {"name": name, "rmse": 0.01, "parameters": pars, "pressure_range": [0.01, 10.0],
                                "loading_range": [0.01, 5.0]}})
     if "model" in roles and "partner" in roles and rng.random() < 0.7:
